@@ -1,4 +1,3 @@
-use std::cmp::max;
 use std::fmt;
 
 use crate::common::position::{CaretPos, Position};
@@ -11,15 +10,7 @@ pub struct Lex {
 
 impl Lex {
     pub fn new(start: CaretPos, token: Token) -> Self {
-        let end = if let Token::Str(_str, _) = &token {
-            start.offset_line(max((_str.lines().count() as i32 - 1) as usize, 0))
-        } else if let Token::DocStr(_str) = &token {
-            start.offset_line(max((_str.lines().count() as i32 - 1) as usize, 0))
-        } else {
-            start
-        };
-
-        let end = end.offset_pos(token.clone().width());
+        let end = token.end(start);
         let pos = Position { start, end };
         Lex { pos, token }
     }
@@ -137,6 +128,26 @@ pub enum Token {
 impl Token {
     pub fn width(&self) -> usize {
         self.to_string().len()
+    }
+
+    /// Position just after this token, given that it starts at `start`.
+    ///
+    /// Strings and doc-strings may span multiple lines, in which case the column restarts after
+    /// the last newline within the token.
+    pub fn end(&self, start: CaretPos) -> CaretPos {
+        let (content, quotes) = match self {
+            Token::Str(string, _) => (string, 1),
+            Token::DocStr(string) => (string, 3),
+            _ => return start.offset_pos(self.width()),
+        };
+
+        match content.rfind('\n') {
+            Some(idx) => CaretPos::new(
+                start.line + content.matches('\n').count(),
+                content[idx + 1..].chars().count() + quotes + 1,
+            ),
+            None => start.offset_pos(content.chars().count() + 2 * quotes),
+        }
     }
 
     pub fn same_type(left: &Token, right: &Token) -> bool {
